@@ -767,7 +767,8 @@ class Constraints:
                 self.origin_type = _t
 
             if _min is not None and _max is not None:
-                if _min >= _max:
+                # ge == le leaves exactly that value, every other touching pair of bounds leaves none
+                if _min > _max or (_min == _max and not (ge is not None and le is not None)):
                     raise exc.ConfigError(
                         f"Rule lt/le ({repr(_max)}) must > gt/ge ({repr(_min)})"
                     )
